@@ -227,6 +227,21 @@ pub fn c09(c: &mut Ctx, b: &Budget) {
                 c.check("metadata-signature-bound-to-subject", !matches!(got, Ok(Ok(_))), "transplanted-signature-accepted", || "metadata returned for another subject".into());
             }
         }
+        // a whole metadata assertion inside the signature object obscured (its digest, and so the wrapper's, is unchanged)
+        {
+            let note_a = Envelope::new_assertion(known_values::NOTE, "genuine");
+            let key = SymmetricKey::from_data_ref(hex::decode(KEY1).unwrap()).unwrap();
+            for act in [ObscureAction::Elide, ObscureAction::Compress, ObscureAction::Encrypt(key)] {
+                let x = signed.elide_removing_target_with_action(&note_a, &act);
+                if x.digest() == signed.digest() && !x.is_identical_to(&signed) {
+                    let got = guarded(|| x.has_signature_from(&a.pk));
+                    c.check("verifies-with-metadata-assertion-obscured", matches!(got, Ok(Ok(true))), "signature-lost", || format!("after obscuring the metadata assertion inside the signature object: {:?} on {}", got.map(|r| r.map_err(|e| e.to_string())), shape(&x)));
+                    let got = guarded(|| x.verify_signature_from_returning_metadata(&a.pk));
+                    c.check("verifies-with-metadata-assertion-obscured", matches!(got, Ok(Ok(_))), "signature-lost", || "verify_signature_from_returning_metadata".into());
+                    c.count("branch:metadata-assertion-obscured");
+                }
+            }
+        }
         // the outer 'signed' predicate inside the signature-with-metadata object, obscured
         {
             let mut t = HashSet::new(); t.insert(Envelope::new(known_values::SIGNED).digest().into_owned());
